@@ -64,7 +64,7 @@ func exact(b []byte) []byte {
 }
 
 func TestV1Session(t *testing.T) {
-	ev.Check(t, "TestV1Session", ev.Pick(8000, 400000), func(t *rapid.T) {
+	ev.Check(t, "TestV1Session", ev.PickN(8000, 400000), func(t *rapid.T) {
 		v := ipmi.V1Session{
 			AuthType: ipmi.AuthenticationType(rapid.SampledFrom([]int{0, 1, 2, 4, 5}).Draw(t, "authType")),
 			Sequence: rapid.Uint32().Draw(t, "seq"), ID: rapid.Uint32().Draw(t, "id"),
@@ -126,7 +126,7 @@ func (t trunc) Sum(b []byte) []byte { return t.Hash.Sum(b)[:len(b)+t.n] }
 func (t trunc) Size() int           { return t.n }
 
 func TestV2Session(t *testing.T) {
-	ev.Check(t, "TestV2Session", ev.Pick(10000, 600000), func(t *rapid.T) {
+	ev.Check(t, "TestV2Session", ev.PickN(10000, 600000), func(t *rapid.T) {
 		v := ipmi.V2Session{
 			Encrypted: rapid.Bool().Draw(t, "enc"), Authenticated: rapid.Bool().Draw(t, "auth"),
 			ID: rapid.Uint32().Draw(t, "id"), Sequence: rapid.Uint32().Draw(t, "seq"),
@@ -185,7 +185,7 @@ func fields2(v *ipmi.V2Session) string {
 }
 
 func TestMessage(t *testing.T) {
-	ev.Check(t, "TestMessage", ev.Pick(10000, 600000), func(t *rapid.T) {
+	ev.Check(t, "TestMessage", ev.PickN(10000, 600000), func(t *rapid.T) {
 		m := ipmi.Message{
 			RemoteAddress: ipmi.Address(rapid.Byte().Draw(t, "remote")), RemoteLUN: ipmi.LUN(rapid.IntRange(0, 3).Draw(t, "rlun")),
 			LocalAddress: ipmi.Address(rapid.Byte().Draw(t, "local")), LocalLUN: ipmi.LUN(rapid.IntRange(0, 3).Draw(t, "llun")),
@@ -252,7 +252,7 @@ func fieldsM(m *ipmi.Message) string {
 }
 
 func TestAES(t *testing.T) {
-	ev.Check(t, "TestAES", ev.Pick(8000, 400000), func(t *rapid.T) {
+	ev.Check(t, "TestAES", ev.PickN(8000, 400000), func(t *rapid.T) {
 		var key [16]byte
 		copy(key[:], rapid.SliceOfN(rapid.Byte(), 16, 16).Draw(t, "key"))
 		p := genPayload().Draw(t, "p")
@@ -301,7 +301,7 @@ func TestAES(t *testing.T) {
 }
 
 func TestRAKP1(t *testing.T) {
-	ev.Check(t, "TestRAKP1", ev.Pick(6000, 300000), func(t *rapid.T) {
+	ev.Check(t, "TestRAKP1", ev.PickN(6000, 300000), func(t *rapid.T) {
 		r := ipmi.RAKPMessage1{
 			Tag: rapid.Byte().Draw(t, "tag"), ManagedSystemSessionID: rapid.Uint32().Draw(t, "sid"),
 			PrivilegeLevelLookup: rapid.Bool().Draw(t, "lookup"), MaxPrivilegeLevel: ipmi.PrivilegeLevel(rapid.IntRange(0, 15).Draw(t, "priv")),
